@@ -19,7 +19,7 @@ use crate::util::{hex, unhex};
 use crate::{Ctx, Tier};
 use bytes::Bytes;
 use scylla::verif_hooks::tablets::{TabletView, VerifTablets, raw_tablet_from_payload};
-use std::collections::{HashMap, HashSet};
+use std::collections::HashMap;
 use std::panic::{AssertUnwindSafe, catch_unwind};
 use uuid::Uuid;
 
@@ -47,8 +47,6 @@ struct Entry {
     resolved: Vec<(u32, u32)>,
     unknown: bool,
     alive: bool,
-    /// a replica's node was re-created in another datacenter while this entry was alive
-    dc_moved: bool,
 }
 
 #[derive(Default, Clone)]
@@ -65,10 +63,10 @@ impl TableShadow {
         }
         let resolved: Vec<(u32, u32)> = raw.iter().copied().filter(|(id, _)| nodes.contains_key(id)).collect();
         let unknown = resolved.len() != raw.len();
-        self.entries.push(Entry { first, last, raw: raw.to_vec(), resolved, unknown, alive: true, dc_moved: false });
+        self.entries.push(Entry { first, last, raw: raw.to_vec(), resolved, unknown, alive: true });
     }
 
-    fn maintenance(&mut self, removed: &[u32], nodes: &HashMap<u32, Option<String>>, dc_moved: &HashSet<u32>) {
+    fn maintenance(&mut self, removed: &[u32], nodes: &HashMap<u32, Option<String>>) {
         for e in self.entries.iter_mut().filter(|e| e.alive) {
             if e.unknown {
                 if e.raw.iter().all(|(id, _)| nodes.contains_key(id)) {
@@ -81,10 +79,6 @@ impl TableShadow {
             }
             if e.resolved.iter().any(|(id, _)| removed.contains(id)) {
                 e.alive = false;
-                continue;
-            }
-            if e.resolved.iter().any(|(id, _)| dc_moved.contains(id)) {
-                e.dc_moved = true;
             }
         }
     }
@@ -203,21 +197,16 @@ impl Runner {
         }
     }
 
-    /// node-set part of a maintenance step on the shadow; returns the ids whose datacenter changed
-    fn shadow_topology(&mut self, removed: &[u32], recreated: &[(u32, Option<String>)]) -> HashSet<u32> {
+    /// node-set part of a maintenance step on the shadow
+    fn shadow_topology(&mut self, removed: &[u32], recreated: &[(u32, Option<String>)]) {
         for id in removed {
             self.sh.nodes.remove(id);
         }
-        let mut moved = HashSet::new();
         for (id, dc) in recreated {
-            if let Some(old) = self.sh.nodes.get(id) {
-                if old != dc {
-                    moved.insert(*id);
-                }
+            if self.sh.nodes.contains_key(id) {
                 self.sh.nodes.insert(*id, dc.clone());
             }
         }
-        moved
     }
 
     fn lookup(&mut self, tok: i64, ctx: &mut Ctx) -> String {
@@ -253,14 +242,12 @@ impl Runner {
                     .collect::<Vec<_>>()
             });
             if got != want {
-                let moved = !self.sh.invalid && self.sh.table.lookup(token_new(tok)).map(|e| e.dc_moved).unwrap_or(false);
                 ctx.fail(format!(
-                    "dc_replicas_for_token({}, {}) = {} but the full replica list restricted to that datacenter is {}{}",
+                    "dc_replicas_for_token({}, {}) = {} but the full replica list restricted to that datacenter is {}",
                     tok,
                     dc,
                     got.as_ref().map(|g| show_reps(g)).unwrap_or("none".into()),
-                    want.as_ref().map(|g| show_reps(g)).unwrap_or("none".into()),
-                    if moved { " (a replica's node was re-created in another datacenter)" } else { "" }
+                    want.as_ref().map(|g| show_reps(g)).unwrap_or("none".into())
                 ));
             }
         }
@@ -339,8 +326,9 @@ impl Runner {
                 let reps = parse_reps(parts[2])?;
                 let ureps = to_uuid_reps(&reps);
                 let (nf, nl) = (token_new(f), token_new(l));
-                if nf > nl {
-                    // ill-formed tablet (never produced by `from_custom_payload`): `drain(left..right)` may panic
+                if nf > nl || self.sh.invalid {
+                    // ill-formed tablet (never produced by `from_custom_payload`), or a list already corrupted by
+                    // one: `drain(left..right)` may panic
                     self.sh.invalid = true;
                     let vt = &mut self.vt;
                     let r = catch_unwind(AssertUnwindSafe(|| match &spec {
@@ -390,8 +378,8 @@ impl Runner {
                 }
                 let removed = parse_ids(parts[0])?;
                 let recreated = parse_recreated(parts[1])?;
-                let moved = self.shadow_topology(&removed, &recreated);
-                self.sh.table.maintenance(&removed, &self.sh.nodes, &moved);
+                self.shadow_topology(&removed, &recreated);
+                self.sh.table.maintenance(&removed, &self.sh.nodes);
                 let ru: Vec<Uuid> = removed.iter().map(|i| uuid_of(*i)).collect();
                 let rc: Vec<(Uuid, Option<String>)> = recreated.iter().map(|(i, d)| (uuid_of(*i), d.clone())).collect();
                 self.vt.maintenance(&ru, &rc);
@@ -434,7 +422,7 @@ impl Runner {
                 }
                 let removed = parse_ids(parts[1])?;
                 let recreated = parse_recreated(parts[2])?;
-                let moved = self.shadow_topology(&removed, &recreated);
+                self.shadow_topology(&removed, &recreated);
                 // expected table set (a repeated keyspace name: the last entry wins, as in a HashMap)
                 let ksmap: HashMap<&str, (bool, &Vec<String>)> = kss.iter().map(|(n, b, t)| (n.as_str(), (*b, t))).collect();
                 self.sh.info.retain(|(k, t), _| ksmap.get(k.as_str()).map(|(b, ts)| *b && ts.contains(t)).unwrap_or(false));
@@ -446,7 +434,7 @@ impl Runner {
                     }
                 }
                 for s in self.sh.info.values_mut() {
-                    s.maintenance(&removed, &self.sh.nodes, &moved);
+                    s.maintenance(&removed, &self.sh.nodes);
                 }
                 let ru: Vec<Uuid> = removed.iter().map(|i| uuid_of(*i)).collect();
                 let rc: Vec<(Uuid, Option<String>)> = recreated.iter().map(|(i, d)| (uuid_of(*i), d.clone())).collect();
@@ -516,10 +504,204 @@ fn run_tab(ops: &str, ctx: &mut Ctx) -> String {
     outs.join(";")
 }
 
+// ------------------------------------------------------------------------------------------------
+// exhaustive small universe
+// ------------------------------------------------------------------------------------------------
+
+fn exh_ranges() -> Vec<(u32, u32)> {
+    let mut v = Vec::new();
+    for f in 0..6 {
+        for l in f..6 {
+            v.push((f, l));
+        }
+    }
+    v
+}
+
+/// alphabet `A`: the 21 ranges over tokens 0..=5; alphabet `B`: the ranges with a replica that is unknown at
+/// first (node 2) plus four topology steps (same definition in lean/ScyllaVerif/Drive/C15.lean).
+fn exh_alphabet(alpha: &str) -> Option<Vec<String>> {
+    match alpha {
+        "A" => Some(exh_ranges().iter().map(|(f, l)| format!("a{}:{}:{}.{}", f, l, (f + l) % 2, f)).collect()),
+        "B" => {
+            let mut v: Vec<String> = exh_ranges().iter().map(|(f, l)| format!("a{}:{}:{}.0", f, l, (f + l) % 3)).collect();
+            v.extend(["m/", "m0/", "n2@dc1", "m/1@dc0"].iter().map(|s| s.to_string()));
+            Some(v)
+        }
+        _ => None,
+    }
+}
+
+const EXH_SETUP: [&str; 2] = ["n0@dc0", "n1@dc1"];
+
+fn mix(h: u64, v: u64) -> u64 {
+    h.wrapping_mul(1099511628211).wrapping_add(v).wrapping_add(1)
+}
+
+fn reps_code(r: &[(u32, u32)]) -> u64 {
+    r.iter().fold(0u64, |c, (id, sh)| c.wrapping_mul(64).wrapping_add((*id as u64 + 1) * 8 + *sh as u64))
+}
+
+struct Exh<'a> {
+    ops: &'a [String],
+    visited: u64,
+    digest: u64,
+    failures: usize,
+}
+
+impl Exh<'_> {
+    /// replays `path` from scratch (the oracle runs on the last step only: every prefix is a node of its own)
+    fn visit(&mut self, path: &[usize], ctx: &mut Ctx) {
+        let mut r = Runner::new();
+        let mut quiet = Ctx::default();
+        for s in EXH_SETUP {
+            r.op(s, &mut quiet);
+        }
+        let mut local = Ctx::default();
+        for (k, i) in path.iter().enumerate() {
+            let c = if k + 1 == path.len() { &mut local } else { &mut quiet };
+            r.op(&self.ops[*i], c);
+        }
+        let mut h = self.digest;
+        for tok in 0..6i64 {
+            let got = r.vt.lookup(tok).map(|v| view_ids(&v));
+            r.lookup(tok, &mut local);
+            h = mix(h, got.map(|g| 1 + g.0 as u64 + 8 * g.1 as u64 + 64 * reps_code(&g.2)).unwrap_or(0));
+            for dc in ["dc0", "dc1"] {
+                let d = r.vt.dc_replicas(tok, dc).map(|x| x.iter().map(|(u, s)| (id_of(u) as u32, *s)).collect::<Vec<_>>());
+                r.dc_lookup(tok, dc, &mut local);
+                h = mix(h, d.map(|d| 1 + reps_code(&d)).unwrap_or(0));
+            }
+        }
+        let n = r.vt.tablets().len() as u64;
+        h = mix(h, n * 10000 + r.vt.unresolved() as u64 * 100 + r.vt.stale_replicas() as u64);
+        self.digest = h;
+        self.visited += 1;
+        if !local.oracle_failures.is_empty() && self.failures < 3 {
+            self.failures += 1;
+            let line: Vec<&str> = EXH_SETUP.iter().copied().chain(path.iter().map(|i| self.ops[*i].as_str())).collect();
+            ctx.fail(format!("{} [replay: tab {};s0:5;d0@dc0;d0@dc1;t]", local.oracle_failures[0], line.join(";")));
+        }
+    }
+
+    fn go(&mut self, path: &mut Vec<usize>, depth: usize, ctx: &mut Ctx) {
+        self.visit(path, ctx);
+        if depth == 0 {
+            return;
+        }
+        for i in 0..self.ops.len() {
+            path.push(i);
+            self.go(path, depth - 1, ctx);
+            path.pop();
+        }
+    }
+}
+
+fn run_exh(alpha: &str, depth: &str, pre: &str, ctx: &mut Ctx) -> String {
+    let Some(ops) = exh_alphabet(alpha) else { return "bad-case".to_owned() };
+    let Ok(depth) = depth.parse::<usize>() else { return "bad-case".to_owned() };
+    if depth > 6 {
+        return "bad-case".to_owned();
+    }
+    let mut path: Vec<usize> = Vec::new();
+    if pre != "-" {
+        for x in pre.split(',') {
+            match x.parse::<usize>() {
+                Ok(i) if i < ops.len() => path.push(i),
+                _ => return "bad-case".to_owned(),
+            }
+        }
+    }
+    let mut e = Exh { ops: &ops, visited: 0, digest: 14695981039346656037, failures: 0 };
+    e.go(&mut path, depth, ctx);
+    format!("{} {}", e.visited, e.digest)
+}
+
+// ------------------------------------------------------------------------------------------------
+// payload
+// ------------------------------------------------------------------------------------------------
+
+const PAYLOAD_KEY: &str = "tablets-routing-v1";
+
+fn run_payload(arg: &str, ctx: &mut Ctx) -> String {
+    let mut map: HashMap<String, Bytes> = HashMap::new();
+    map.insert("some-other-key".to_owned(), Bytes::from_static(&[1, 2, 3]));
+    if arg == "absent" {
+        return match raw_tablet_from_payload(&map) {
+            None => "absent".to_owned(),
+            Some(_) => {
+                ctx.fail("a payload without the tablets key produced a tablet");
+                "present".to_owned()
+            }
+        };
+    }
+    let Some(bytes) = unhex(arg) else { return "bad-case".to_owned() };
+    map.insert(PAYLOAD_KEY.to_owned(), Bytes::from(bytes.clone()));
+    // the two bounds as the protocol defines the cell (independent reading: [int len][8 bytes] twice)
+    let bounds = || -> Option<(i64, i64)> {
+        let rd = |o: usize| -> Option<i64> {
+            if bytes.len() >= o + 12 && bytes[o..o + 4] == [0, 0, 0, 8] {
+                Some(i64::from_be_bytes(bytes[o + 4..o + 12].try_into().ok()?))
+            } else {
+                None
+            }
+        };
+        let (a, b) = (rd(0)?, rd(12)?);
+        // the replica list cell must be framed (its items are only looked at after the range check)
+        if bytes.len() > 24 {
+            let len = i32::from_be_bytes(bytes.get(24..28)?.try_into().ok()?);
+            if len >= 0 {
+                let body = bytes.get(28..28 + len as usize)?;
+                let count = i32::from_be_bytes(body.get(0..4)?.try_into().ok()?);
+                if count < 0 {
+                    return None;
+                }
+            }
+        }
+        Some((a, b))
+    };
+    match raw_tablet_from_payload(&map) {
+        None => {
+            ctx.fail("tablets key present but from_custom_payload returned None");
+            "absent".to_owned()
+        }
+        Some(Ok((f, l, reps))) => {
+            match bounds() {
+                Some((a, b)) => {
+                    if !(a < b) {
+                        ctx.fail(format!("payload range ({}, {}] accepted although last <= first", a, b));
+                    } else if f != a + 1 || l != b {
+                        ctx.fail(format!("payload range ({}, {}] became [{}, {}], expected [{}, {}]", a, b, f, l, a + 1, b));
+                    }
+                }
+                None => ctx.fail("payload accepted although it is not two 8-byte bigints and a framed list"),
+            }
+            if f > l {
+                ctx.fail(format!("accepted tablet has first {} > last {}", f, l));
+            }
+            let r: Vec<String> = reps.iter().map(|(u, s)| format!("{}.{}", u.as_u128(), s)).collect();
+            format!("ok {}:{}:{}", f, l, if r.is_empty() { "-".to_owned() } else { r.join(",") })
+        }
+        Some(Err(kind)) => {
+            if let Some((a, b)) = bounds() {
+                if b <= a && kind != "wrongrange" {
+                    ctx.fail(format!("payload range ({}, {}] rejected as {} instead of wrongrange", a, b, kind));
+                }
+                if a < b && kind == "wrongrange" {
+                    ctx.fail(format!("non-empty payload range ({}, {}] rejected as wrong range", a, b));
+                }
+            }
+            format!("err {}", kind)
+        }
+    }
+}
+
 pub fn run(case: &str, ctx: &mut Ctx) -> String {
     let w: Vec<&str> = case.split_whitespace().collect();
     match w.as_slice() {
         ["tab", ops] => run_tab(ops, ctx),
+        ["payload", arg] => run_payload(arg, ctx),
+        ["exh", alpha, depth, pre] => run_exh(alpha, depth, pre, ctx),
         _ => "bad-case".to_owned(),
     }
 }
@@ -528,7 +710,369 @@ pub fn run(case: &str, ctx: &mut Ctx) -> String {
 // generators
 // ------------------------------------------------------------------------------------------------
 
+const DCS: [&str; 3] = ["dc0", "dc1", "dc2"];
+
+/// token pool of one random history: the extremes, a few anchors and their neighbours (so that ranges touch,
+/// nest and share end points often)
+fn token_pool(rng: &mut Rng) -> Vec<i64> {
+    let mut pool = vec![i64::MIN + 1, i64::MIN + 2, i64::MAX - 1, i64::MAX, -1, 0, 1];
+    let anchors = 2 + rng.below(5);
+    for _ in 0..anchors {
+        let a = match rng.below(3) {
+            0 => rng.range(-50, 50),
+            1 => rng.i64_boundary(),
+            _ => rng.next() as i64,
+        };
+        for d in [-2i64, -1, 0, 1, 2] {
+            let t = a.saturating_add(d);
+            if t != i64::MIN {
+                pool.push(t);
+            }
+        }
+    }
+    pool
+}
+
+fn gen_reps(rng: &mut Rng, max_id: u32) -> String {
+    let n = match rng.below(10) {
+        0 => 0,
+        1..=3 => 1,
+        4..=7 => 3,
+        _ => rng.range(2, 5) as usize,
+    };
+    let r: Vec<String> = (0..n).map(|_| format!("{}.{}", rng.below(max_id as u64), rng.below(4))).collect();
+    if r.is_empty() { "-".to_owned() } else { r.join(",") }
+}
+
+fn gen_range(rng: &mut Rng, pool: &[i64]) -> (i64, i64) {
+    let a = *rng.pick(pool);
+    let b = match rng.below(6) {
+        0 => a,
+        1 => a.saturating_add(rng.range(0, 3)),
+        _ => *rng.pick(pool),
+    };
+    (a.min(b), a.max(b))
+}
+
+fn gen_topology(rng: &mut Rng, known: &mut Vec<u32>, max_id: u32) -> (String, String) {
+    // removed: mostly known nodes, sometimes an id that was never known
+    let mut removed: Vec<u32> = Vec::new();
+    let nr = match rng.below(6) {
+        0..=2 => 0,
+        3 | 4 => 1,
+        _ => 2,
+    };
+    for _ in 0..nr {
+        let id = if !known.is_empty() && rng.chance(5, 6) { *rng.pick(known) } else { rng.below(max_id as u64) as u32 };
+        if !removed.contains(&id) {
+            removed.push(id);
+        }
+    }
+    known.retain(|k| !removed.contains(k));
+    let mut recreated: Vec<String> = Vec::new();
+    let nc = match rng.below(6) {
+        0..=2 => 0,
+        3 | 4 => 1,
+        _ => 2,
+    };
+    for _ in 0..nc {
+        let id = if !known.is_empty() && rng.chance(5, 6) { *rng.pick(known) } else { rng.below(max_id as u64) as u32 };
+        recreated.push(if rng.chance(1, 8) { format!("{}", id) } else { format!("{}@{}", id, rng.pick(&DCS)) });
+    }
+    (removed.iter().map(|x| x.to_string()).collect::<Vec<_>>().join(","), recreated.join(","))
+}
+
+fn random_history(rng: &mut Rng, len: usize, ill_formed: bool) -> String {
+    let pool = token_pool(rng);
+    let max_id = 3 + rng.below(6) as u32;
+    let mut known: Vec<u32> = Vec::new();
+    let mut ops: Vec<String> = Vec::new();
+    let start_nodes = rng.below(max_id as u64 + 1) as u32;
+    for id in 0..start_nodes {
+        known.push(id);
+        ops.push(if rng.chance(1, 10) { format!("n{}", id) } else { format!("n{}@{}", id, rng.pick(&DCS)) });
+    }
+    let mut last_range = (0i64, 0i64);
+    while ops.len() < len {
+        match rng.below(100) {
+            0..=44 => {
+                let (mut f, mut l) = gen_range(rng, &pool);
+                if ill_formed && rng.chance(1, 6) {
+                    // malformed stream: first > last, or `i64::MIN` (normalised to MAX) as a bound
+                    match rng.below(3) {
+                        0 => std::mem::swap(&mut f, &mut l),
+                        1 => f = i64::MIN,
+                        _ => l = i64::MIN,
+                    }
+                }
+                last_range = (f, l);
+                ops.push(format!("a{}:{}:{}", f, l, gen_reps(rng, max_id)));
+            }
+            45..=64 => {
+                let t = match rng.below(5) {
+                    0 => last_range.0,
+                    1 => last_range.1,
+                    2 => last_range.0.saturating_sub(1),
+                    3 => last_range.1.saturating_add(1),
+                    _ => *rng.pick(&pool),
+                };
+                ops.push(format!("q{}", if rng.chance(1, 40) { i64::MIN } else { t }));
+            }
+            65..=76 => {
+                let t = if rng.bool() { last_range.0 } else { *rng.pick(&pool) };
+                ops.push(format!("d{}@{}", t, if rng.chance(1, 10) { "dcx" } else { *rng.pick(&DCS) }));
+            }
+            77..=86 => {
+                let (rm, rc) = gen_topology(rng, &mut known, max_id);
+                ops.push(format!("m{}/{}", rm, rc));
+            }
+            87..=92 => {
+                // a node that is not known (never: replacing a known node behind the tablets' back)
+                let id = rng.below(max_id as u64) as u32;
+                if !known.contains(&id) {
+                    known.push(id);
+                    ops.push(format!("n{}@{}", id, rng.pick(&DCS)));
+                }
+            }
+            93..=96 => ops.push("t".to_owned()),
+            _ => {
+                let lo = pool[rng.below(pool.len() as u64) as usize];
+                let lo = lo.min(i64::MAX - 8);
+                ops.push(format!("s{}:{}", lo, lo + rng.range(0, 8)));
+            }
+        }
+    }
+    ops.push("t".to_owned());
+    format!("tab {}", ops.join(";"))
+}
+
+fn info_history(rng: &mut Rng, len: usize) -> String {
+    let kss = ["ka", "kb", "kc"];
+    let tbs = ["t1", "t2", "t3"];
+    let pool = token_pool(rng);
+    let max_id = 4u32;
+    let mut known: Vec<u32> = vec![0, 1];
+    let mut ops: Vec<String> = vec!["n0@dc0".into(), "n1@dc1".into()];
+    while ops.len() < len {
+        match rng.below(100) {
+            0..=44 => {
+                let (f, l) = gen_range(rng, &pool);
+                ops.push(format!("A{}.{}:{}:{}:{}", rng.pick(&kss), rng.pick(&tbs), f, l, gen_reps(rng, max_id)));
+            }
+            45..=64 => ops.push(format!("Q{}.{}:{}", rng.pick(&kss), rng.pick(&tbs), rng.pick(&pool))),
+            65..=84 => {
+                let mut ks_items: Vec<String> = Vec::new();
+                for k in kss.iter() {
+                    if rng.chance(3, 4) {
+                        let tables: Vec<&str> = tbs.iter().copied().filter(|_| rng.chance(2, 3)).collect();
+                        ks_items.push(format!("{}:{}:{}", k, if rng.chance(3, 4) { 1 } else { 0 }, tables.join("+")));
+                    }
+                }
+                if rng.chance(1, 10) && !ks_items.is_empty() {
+                    // a keyspace listed twice (the last entry wins)
+                    let again = format!("{}:{}:{}", rng.pick(&kss), rng.below(2), tbs[rng.below(3) as usize]);
+                    ks_items.push(again);
+                }
+                let (rm, rc) = if rng.chance(1, 2) { (String::new(), String::new()) } else { gen_topology(rng, &mut known, max_id) };
+                ops.push(format!("M{}/{}/{}", ks_items.join("&"), rm, rc));
+            }
+            85..=90 => {
+                let id = rng.below(max_id as u64) as u32;
+                if !known.contains(&id) {
+                    known.push(id);
+                    ops.push(format!("n{}@{}", id, rng.pick(&DCS)));
+                }
+            }
+            _ => ops.push("T".to_owned()),
+        }
+    }
+    ops.push("T".to_owned());
+    format!("tab {}", ops.join(";"))
+}
+
+fn cell(b: Option<&[u8]>) -> Vec<u8> {
+    match b {
+        None => (-1i32).to_be_bytes().to_vec(),
+        Some(b) => {
+            let mut v = (b.len() as i32).to_be_bytes().to_vec();
+            v.extend_from_slice(b);
+            v
+        }
+    }
+}
+
+fn gen_payload(rng: &mut Rng) -> String {
+    let bound = |rng: &mut Rng| -> i64 {
+        match rng.below(4) {
+            0 => *rng.pick(&[i64::MIN, i64::MIN + 1, -1, 0, 1, i64::MAX - 1, i64::MAX]),
+            1 => rng.range(-3, 3),
+            _ => rng.i64_boundary(),
+        }
+    };
+    let a = bound(rng);
+    let b = match rng.below(5) {
+        0 => a,
+        1 => a.saturating_add(1),
+        2 => a.saturating_sub(1),
+        _ => bound(rng),
+    };
+    let n = rng.below(4) as usize;
+    let mut list: Vec<u8> = (n as i32).to_be_bytes().to_vec();
+    let neg_shard = rng.chance(1, 8);
+    for k in 0..n {
+        let id: u128 = if rng.bool() { rng.below(8) as u128 } else { ((rng.next() as u128) << 64) | rng.next() as u128 };
+        let shard: i32 = if neg_shard && k + 1 == n { -(rng.range(1, 5) as i32) } else { *rng.pick(&[0, 1, 2, 7, 255, i32::MAX]) };
+        let mut t = cell(Some(&id.to_be_bytes()));
+        t.extend(cell(Some(&shard.to_be_bytes())));
+        list.extend(cell(Some(&t)));
+    }
+    let mut p = cell(Some(&a.to_be_bytes()));
+    p.extend(cell(Some(&b.to_be_bytes())));
+    p.extend(cell(Some(&list)));
+    // malformed stream
+    match rng.below(12) {
+        0 => {
+            let cut = rng.below(p.len() as u64 + 1) as usize;
+            p.truncate(cut);
+        }
+        1 => {
+            let i = rng.below(p.len() as u64) as usize;
+            p[i] ^= 1 << rng.below(8);
+        }
+        2 => {
+            // wrong type: (int, int, list) / text / nulls
+            p = match rng.below(4) {
+                0 => {
+                    let mut q = cell(Some(&(a as i32).to_be_bytes()));
+                    q.extend(cell(Some(&(b as i32).to_be_bytes())));
+                    q.extend(cell(Some(&list)));
+                    q
+                }
+                1 => cell(Some(b"tablet")),
+                2 => {
+                    let mut q = cell(None);
+                    q.extend(cell(Some(&b.to_be_bytes())));
+                    q.extend(cell(Some(&list)));
+                    q
+                }
+                _ => {
+                    let mut q = cell(Some(&a.to_be_bytes()));
+                    q.extend(cell(Some(&b.to_be_bytes())));
+                    if rng.bool() {
+                        q.extend(cell(None));
+                    }
+                    q
+                }
+            };
+        }
+        3 => {
+            // element count larger than the elements present / negative count
+            let cnt: i32 = *rng.pick(&[-1, n as i32 + 1, i32::MAX, 1 << 20]);
+            let mut l2 = cnt.to_be_bytes().to_vec();
+            l2.extend_from_slice(&list[4..]);
+            p = cell(Some(&a.to_be_bytes()));
+            p.extend(cell(Some(&b.to_be_bytes())));
+            p.extend(cell(Some(&l2)));
+        }
+        4 => p.extend(rng.bytes(3)),
+        _ => {}
+    }
+    format!("payload {}", hex(&p))
+}
+
 pub fn generate(rng: &mut Rng, tier: Tier, emit: &mut dyn FnMut(String)) {
-    let _ = (rng, tier, hex(&[]), unhex("-"), Bytes::new(), raw_tablet_from_payload(&HashMap::new()));
-    emit("tab n1@dc1;n2@dc2;a1:5:1.0,2.3,9.1;t;q3;q0;d3@dc1;d3@dc2;d3@dcx;a5:8:1.1;t;s0:9;m/;t".to_owned());
+    let quick = tier == Tier::Quick;
+    let mut light: Vec<String> = Vec::new();
+    let mut heavy: Vec<String> = Vec::new();
+
+    // 1. exhaustive histories over the 6-token universe, every token queried after every step
+    //    (a) as plain `tab` lines (every answer visible in the diff) up to length 3 / 4
+    let setup = EXH_SETUP.join(";");
+    for (alpha, depth) in [("A", if quick { 3 } else { 4 }), ("B", 3)] {
+        let ops = exh_alphabet(alpha).unwrap();
+        let mut idx = vec![0usize; depth];
+        'outer: loop {
+            let mut line = format!("tab {}", setup);
+            for i in &idx {
+                line.push(';');
+                line.push_str(&ops[*i]);
+                line.push_str(";s0:5");
+                if alpha == "B" {
+                    line.push_str(";d2@dc0;d2@dc1;d3@dc1");
+                }
+            }
+            line.push_str(";t");
+            light.push(line);
+            let mut k = depth;
+            loop {
+                if k == 0 {
+                    break 'outer;
+                }
+                k -= 1;
+                idx[k] += 1;
+                if idx[k] < ops.len() {
+                    break;
+                }
+                idx[k] = 0;
+            }
+        }
+    }
+    //    (b) as digests of whole subtrees: inserts only to length 5 / 6, with topology steps to length 4 / 5
+    let na = exh_alphabet("A").unwrap().len();
+    let nb = exh_alphabet("B").unwrap().len();
+    for i in 0..na {
+        for j in 0..na {
+            heavy.push(format!("exh A {} {},{}", if quick { 3 } else { 4 }, i, j));
+        }
+    }
+    for i in 0..nb {
+        if quick {
+            heavy.push(format!("exh B 3 {}", i));
+        } else {
+            for j in 0..nb {
+                heavy.push(format!("exh B 3 {},{}", i, j));
+            }
+        }
+    }
+
+    // 2. random histories over the full token range (extremes, touching ranges), maintenance included
+    let scale = if quick { 1 } else { 12 };
+    for _ in 0..1500 * scale {
+        let len = match rng.below(4) {
+            0 => rng.range(2, 12) as usize,
+            1 => rng.range(12, 60) as usize,
+            _ => rng.range(60, 200) as usize,
+        };
+        light.push(random_history(rng, len, false));
+    }
+    // 3. malformed stream: ill-formed inserts (the oracle stops at the first one; model and code must still agree)
+    for _ in 0..300 * scale {
+        let len = rng.range(3, 60) as usize;
+        light.push(random_history(rng, len, true));
+    }
+    // 4. TabletsInfo level
+    for _ in 0..600 * scale {
+        let len = rng.range(4, 60) as usize;
+        light.push(info_history(rng, len));
+    }
+    // 5. payloads
+    light.push("payload absent".to_owned());
+    for _ in 0..4000 * scale {
+        light.push(gen_payload(rng));
+    }
+
+    // heavy cases evenly spread (the runner cuts the case list into contiguous chunks)
+    let every = (light.len() / heavy.len().max(1)).max(1);
+    let mut h = heavy.into_iter();
+    for (i, l) in light.into_iter().enumerate() {
+        if i % every == 0 {
+            if let Some(x) = h.next() {
+                emit(x);
+            }
+        }
+        emit(l);
+    }
+    for x in h {
+        emit(x);
+    }
 }
